@@ -158,6 +158,12 @@ pub struct AppCfg {
     pub dgram_max: usize,
     pub dgram_drop_pct: u32,
     pub dgram_read: bool,
+    /// percentage of ordered readers that later switch to unordered reads
+    pub switch_pct: u32,
+    /// percentage of readers with a per-wake-up chunk budget (partial reads)
+    pub budget_pct: u32,
+    /// force small max_length values
+    pub small_reads: bool,
 }
 
 impl Default for AppCfg {
@@ -176,6 +182,9 @@ impl Default for AppCfg {
             dgram_max: 0,
             dgram_drop_pct: 0,
             dgram_read: true,
+            switch_pct: 35,
+            budget_pct: 30,
+            small_reads: false,
         }
     }
 }
@@ -196,12 +205,20 @@ struct RecvPolicy {
     ordered: bool,
     max_len: usize,
     stop_after: Option<(u64, u64)>,
+    /// start with ordered reads, switch to unordered once this many bytes were read (legal;
+    /// the reverse is not)
+    switch_after: Option<u64>,
+    /// read at most this many chunks per wake-up, continuing at the next step (partial reads
+    /// leave overlapping retransmissions sitting in the assembler)
+    budget: Option<u32>,
 }
 
 #[derive(Debug, Default)]
 struct RecvJob {
     done: bool,
     read: u64,
+    switched: bool,
+    calls: u64,
 }
 
 pub struct App {
@@ -222,6 +239,8 @@ pub struct App {
     pub events_seen: u64,
     /// configured datagram send buffer (for the admission model)
     pub dgram_send_buf: Option<usize>,
+    /// streams whose last read stopped on its chunk budget, not on Blocked
+    pending_reads: std::collections::BTreeSet<u64>,
     /// log of application-visible history (for C04 / C20 comparisons)
     pub history: Vec<String>,
     pub record_history: bool,
@@ -251,6 +270,7 @@ impl App {
             dgram_blocked: false,
             events_seen: 0,
             dgram_send_buf: None,
+            pending_reads: Default::default(),
             history: vec![],
             record_history: false,
         }
@@ -277,12 +297,15 @@ impl App {
             3 => 333,
             _ => usize::MAX,
         };
+        let max_len = if self.cfg.small_reads { [1usize, 7, 33][((h >> 8) % 3) as usize] } else { max_len };
         let stop_after = if ((h >> 16) % 100) < self.cfg.stop_pct as u64 {
             Some(((h >> 24) % 5000, (h >> 40) % 1000))
         } else {
             None
         };
-        RecvPolicy { ordered, max_len, stop_after }
+        let switch_after = if ordered && (h >> 48) % 100 < self.cfg.switch_pct as u64 { Some((h >> 52) % 12) } else { None };
+        let budget = if (h >> 56) % 100 < self.cfg.budget_pct as u64 { Some(1 + ((h >> 58) % 4) as u32) } else { None };
+        RecvPolicy { ordered, max_len, stop_after, switch_after, budget }
     }
 
     /// Called once when the connection object exists (before any event).
@@ -649,6 +672,19 @@ impl App {
             return;
         }
         let key = led.flow(pair, writer_client, sid).key;
+        job.calls += 1;
+        if let Some(n) = pol.switch_after {
+            // switch on the n-th wake-up that follows some ordered reading
+            if job.calls > n + 1 && job.read > 0 && !job.switched {
+                job.switched = true;
+                led.cnt.inc("c01.ordered_to_unordered_switch");
+            }
+        }
+        let mut pol = pol;
+        if job.switched {
+            pol.ordered = false;
+        }
+        let pol = pol;
         led.flow(pair, writer_client, sid).unordered = !pol.ordered;
         let conn_closed = conn.is_closed();
         let mut rs = conn.recv_stream(id);
@@ -667,7 +703,15 @@ impl App {
             }
         };
         let mut stop_now = None;
+        let mut chunks_this_call = 0u32;
+        let mut budget_hit = false;
+        self.pending_reads.remove(&sid);
         loop {
+            if pol.budget.map_or(false, |b| chunks_this_call >= b) {
+                budget_hit = true;
+                break;
+            }
+            chunks_this_call += 1;
             match chunks.next(pol.max_len) {
                 Ok(Some(chunk)) => {
                     led.cnt.inc("c01.chunks");
@@ -772,6 +816,10 @@ impl App {
             }
         }
         let _ = chunks.finalize();
+        if budget_hit && !job.done {
+            self.pending_reads.insert(sid);
+            led.cnt.inc("c01.partial_reads");
+        }
         if let Some(code) = stop_now {
             let r = conn.recv_stream(id).stop(VarInt::from_u64(code).unwrap());
             if r.is_ok() {
@@ -920,6 +968,18 @@ impl App {
                 led.dgram(pair, writer_client).anonymous_received += 1;
             }
         }
+    }
+
+    /// Continue reads that stopped on their chunk budget. Returns whether anything was done.
+    pub fn poll_pending(&mut self, conn: &mut Connection, led: &mut Ledger) -> bool {
+        if self.pending_reads.is_empty() {
+            return false;
+        }
+        let ids: Vec<u64> = self.pending_reads.iter().copied().collect();
+        for sid in ids {
+            self.do_read(conn, StreamId::from(VarInt::from_u64(sid).unwrap()), led);
+        }
+        true
     }
 
     pub fn jobs_done(&self) -> bool {
